@@ -52,13 +52,20 @@ fn case_list(ctx: &Ctx) -> Vec<Case> {
     }
     // C2: lazy-parsing stress inputs, several LZ-buffer fills long and poorly compressible (the
     // one-shot function then re-enters the compressor after growing its output vector)
-    let nl = ctx.n(48, 600);
+    let nl = ctx.n(48, 2400);
     for j in 0..nl {
         let mut r = ctx.rng("listL", j);
         v.push(Case { size: 250_000 + r.below(450_000), class: 16, level: 4 + r.below(7) as u8, zlib: r.bool(), boundary: false });
     }
+    // C3: repeats at the far edge of the window (distances within a few bytes of 32 KiB and of
+    // 32 KiB - 258), first byte of the copy often differing only in a bit the hash drops
+    let ne = ctx.n(330, 20_000);
+    for j in 0..ne {
+        let mut r = ctx.rng("listE", j);
+        v.push(Case { size: 34_000 + r.below(if j % 3 == 0 { 200_000 } else { 60_000 }), class: 17, level: (j % 11) as u8, zlib: r.bool(), boundary: false });
+    }
     // D: random mid sizes, all classes
-    let n = ctx.n(2500, 40_000);
+    let n = ctx.n(2500, 200_000);
     for j in 0..n {
         let mut r = ctx.rng("listD", j);
         let size = if r.chance(1, 4) { r.range(65, 400) } else { r.size_biased(if ctx.thorough() { 400_000 } else { 120_000 }) };
